@@ -3,27 +3,44 @@
   Part 1: blob storage.
 -/
 import InvProxy.Model.Blob
+import InvProxy.Proofs.Blob
 namespace InvProxy.C19
 open InvProxy InvProxy.Blob InvProxy.Gen
 
 /-- Stored requests and responses of any size — below, at and above the 1,000,000-byte
     inline and part limits — read back byte-identical. -/
 theorem blob_roundtrip (bs : Bytes) : (newBlob bs).read = bs := by
-  sorry
+  unfold newBlob
+  split
+  · simp [Blob.read]
+  · simp only [Blob.read, writeParts_flatten, List.take_append_drop]
 
 /-- every entity stays within the datastore field limit -/
 theorem part_sizes (bs : Bytes) :
     (newBlob bs).inlined.length ≤ store_fieldByteLimit ∧ ∀ p ∈ (newBlob bs).parts, p.length ≤ store_fieldByteLimit := by
-  sorry
+  unfold newBlob
+  split
+  · rename_i h
+    have h' : bs.length < store_fieldByteLimit := of_decide_eq_true h
+    exact ⟨Nat.le_of_lt h', fun p hp => nomatch hp⟩
+  · refine ⟨?_, writeParts_sizes _⟩
+    rw [List.length_take]
+    exact Nat.min_le_left _ _
 
 /-- small payloads are stored inline, without part entities -/
 theorem small_inline (bs : Bytes) (h : bs.length < store_fieldByteLimit) : newBlob bs = { inlined := bs, parts := [] } := by
-  sorry
+  have h' : store_inlineTest bs.length = true := decide_eq_true h
+  unfold newBlob
+  rw [if_pos h']
 
 /-- number of part entities written for a payload at or above the limit -/
 theorem part_count (bs : Bytes) (h : store_fieldByteLimit ≤ bs.length) :
     (newBlob bs).parts.length = (bs.length - store_fieldByteLimit) / store_fieldByteLimit + 1 := by
-  sorry
+  have h' : store_inlineTest bs.length = false := decide_eq_false (Nat.not_lt.2 h)
+  unfold newBlob
+  rw [h']
+  simp only [Bool.false_eq_true, if_false]
+  rw [writeParts_length, List.length_drop]
 
 theorem limits : store_fieldByteLimit = 1000000 ∧ cache_cacheEntrySizeLimit = 1000000 := by decide
 
